@@ -406,6 +406,11 @@ static Plan make_plan(const std::string& prop, uint64_t root, uint64_t idx, bool
         p.faults.push_back(f);
     }
     if (prop == "C09" && r.below(12) == 0) p.tcfail = 0.2;
+    else if (prop == "C09" && r.below(8) == 0) {
+        // an output (or input) file that cannot be opened / closed: the run may fail, but it must not report success with an incomplete output set
+        IoFault f; f.call = r.below(4) ? "fopen" : "fclose"; f.nth = 1 + (int)r.below(12); static const int errs[] = {ENOSPC, EMFILE, EIO, EACCES}; f.err = errs[r.below(4)];
+        p.faults.push_back(f);
+    }
     return p;
 }
 
@@ -621,9 +626,20 @@ static std::string file_class(const RunOut& o, const std::string& rel) {
     if (is_impl_name(b)) return b[0] == 's' ? "static-file" : "dynamic-file"; if (b == "datasegments") return "datasegments"; return "other";
 }
 static void c09_oracle(const Plan& p, const RunOut& canon, const RunOut& o, Verdict& v) {
-    crash_oracle(p, o, "C09", v, false);
+    // I/O fault configuration: the translator's own reaction to a file it cannot create - a diagnostic followed by abort() - is a failed run, not a crash
+    bool deliberate_abort = !p.faults.empty() && (o.sig == SIGABRT || o.exit_code == 134) && o.stderr_tail.find("w2c2: failed to ") != std::string::npos && o.stderr_tail.find("Assertion") == std::string::npos && o.stderr_tail.find("Sanitizer") == std::string::npos;
+    if (!deliberate_abort) crash_oracle(p, o, "C09", v, false);
     if (p.tcfail > 0) return;      // fault configuration: only no crash / no hang
     if (v.fail()) return;
+    if (!p.faults.empty()) {
+        // I/O fault configuration: failing is fine; success must mean the complete canonical output
+        if (o.exit_code == 0 && canon.exit_code == 0 && o.out_hash != canon.out_hash) {
+            std::string det; std::set<std::string> a(canon.out_names.begin(), canon.out_names.end()), b(o.out_names.begin(), o.out_names.end());
+            for (auto& n : a) if (!b.count(n)) det += " missing:" + n; else if (canon.out_files.at(n) != o.out_files.at(n)) det += " differs:" + n;
+            v.set("C09/fault/success-reported-with-incomplete-output:" + p.faults[0].call, "exit status 0 although " + std::to_string(o.io_faults) + " injected " + p.faults[0].call + " failure(s) left the output different from the canonical run:" + det);
+        }
+        return;
+    }
     if (canon.exit_code != 0) { v.set("C09/canonical/failed:" + opts_sig(p), "canonical -t 1 run failed: " + canon.stderr_tail.substr(0, 600)); return; }
     if (o.out_hash != canon.out_hash) {
         std::string which = "fileset", det;
